@@ -25,3 +25,10 @@ Definition h_cbounds (c : vc) : list version := flat_map h_rbounds (flatten c).
 Definition h_regular1 (v e : version) : bool := veqb v e || negb (is_eq (rcmp v e)).
 Definition h_mutual (a b : vc) : bool :=
   let B := (h_cbounds a ++ h_cbounds b)%list in forallb (fun e => forallb (h_regular1 e) B) B.
+(* members in order and pairwise apart (no overlap, no adjacency): VersionUnion.of returns such a list unchanged (Proofs/UnionOfNormal.v);
+   hypothesis of the union text round trip (C15) *)
+Fixpoint h_apart_all (l : list rng) : bool :=
+  match l with
+  | [] => true
+  | x :: r => forallb (fun y => negb (r_allows_any x y) && negb (is_adjacent_to x y) && negb (r_lt y x)) r && h_apart_all r
+  end.
